@@ -252,6 +252,15 @@ func e2eScenarios() []e2eScenario {
 			{Name: "first", Host: hostA, Prepare: withCookie("/private/1", func() *sessions.SessionState { return sess(hostA, "alice@allowed.test", "good-token", true) })},
 			{Name: "second", Host: hostA, Prepare: withCookie("/private/2", func() *sessions.SessionState { return sess(hostA, "alice@allowed.test", "good-token", true) })},
 		}},
+		// two sessions redeemed at different times from one authenticator session: same tokens, different lifetime bounds
+		{Name: "e2e/two-sessions-one-grant-refresh-due", YAML: single, Answer: answer, Bound: -1, Reqs: []e2eReq{
+			{Name: "older", Host: hostA, Prepare: withCookie("/private/1", func() *sessions.SessionState {
+				s := sess(hostA, "alice@allowed.test", "good-token", true)
+				s.LifetimeDeadline = harness.At(10 * time.Minute)
+				return s
+			})},
+			{Name: "younger", Host: hostA, Prepare: withCookie("/private/2", func() *sessions.SessionState { return sess(hostA, "alice@allowed.test", "good-token", true) })},
+		}},
 		// two callbacks carrying the same code on two hosts of one rewrite-routed upstream
 		{Name: "e2e/callbacks-same-code-two-hosts-statement-granularity", YAML: rewrite, Answer: answer, Fine: true, Bound: 2, Reqs: []e2eReq{
 			{Name: "host-a", Host: "foo-a.sso.test", Prepare: callback("foo-a.sso.test")},
